@@ -1,6 +1,8 @@
 package optimizer
 
 import (
+	"reflect"
+
 	. "github.com/antonmedv/expr/ast"
 )
 
@@ -11,6 +13,15 @@ func (*inRange) Exit(node *Node) {
 	switch n := (*node).(type) {
 	case *BinaryNode:
 		if n.Operator == "in" || n.Operator == "not in" {
+			if _, ok := n.Left.(*NilNode); ok {
+				return
+			}
+			if t := n.Left.Type(); t != nil && !isIntegerKind(t.Kind()) {
+				// Comparing with the bounds is equivalent to membership
+				// only for integers (not for floats, strings, nil or
+				// values whose type is known only at run time).
+				return
+			}
 			if rng, ok := n.Right.(*BinaryNode); ok && rng.Operator == ".." {
 				if from, ok := rng.Left.(*IntegerNode); ok {
 					if to, ok := rng.Right.(*IntegerNode); ok {
@@ -38,4 +49,14 @@ func (*inRange) Exit(node *Node) {
 			}
 		}
 	}
+}
+
+func isIntegerKind(k reflect.Kind) bool {
+	switch k {
+	case reflect.Int, reflect.Int8, reflect.Int16, reflect.Int32, reflect.Int64:
+		return true
+	case reflect.Uint, reflect.Uint8, reflect.Uint16, reflect.Uint32, reflect.Uint64:
+		return true
+	}
+	return false
 }
